@@ -92,6 +92,9 @@ func reflDec(rt reflect.Type, t *wg.Ty, input []byte) (o decOut) {
 	if err := encoding.NewDecoder(encoding.DefaultCap(), r).Decode(p.Interface()); err != nil {
 		return decOut{class: ocErr, left: r.Len()}
 	}
+	if t == nil {
+		return decOut{class: ocOK, left: r.Len()}
+	}
 	return decOut{class: ocOK, val: wg.Read(p.Elem(), t), left: r.Len()}
 }
 
